@@ -1244,6 +1244,9 @@ SPECS["C20"]["theorems"] += [
     "Woodpile.Props.C20W.no_share_preserved",
     "Woodpile.Props.C20W.no_share_along_run",
     "Woodpile.Props.C20W.this_clone_shares_nothing",
+    "Woodpile.Props.C20W.no_share_moves_with_take",
+    "Woodpile.Props.C20W.no_share_inherited_by_clone",
+    "Woodpile.Props.C20W.fill_private_of_clean_clones",
     "Woodpile.Props.C20W.private_gives_no_share",
     "Woodpile.Props.C20W.independent_step_w",
     "Woodpile.Props.C20W.clone_independent_w",
